@@ -96,6 +96,7 @@ def parseVal (kind val : String) : Option FVal :=
   P,<host>[,<ipbytes>]           net.ParseIP (4 bytes when To4() != nil, else 16; 2 columns = nil)
   M,<masked|nil>,<string>        IP.String() of the masked address
   U,<s>[,<pre>,<post>,<force>,<q>]   url.Parse; q = `.` | k=v|v&k=v
+  Q,<rawquery>,<q>               url.ParseQuery of the text after the first `?` (when url.Parse fails)
   C,<cookies>                    Request.Cookies(): `.` | name=value=q|…
   R,<s>,<spans>                  regexp: `.` | start~end~exp|…
 -/
@@ -105,6 +106,7 @@ structure Tables where
   ip : List (Bytes × Option IPAddr) := []
   ipStr : List (Option (List UInt8) × Bytes) := []
   url : List (Bytes × Option URLParts) := []
+  pq : List (Bytes × List (Bytes × List Bytes)) := []
   cookies : List Cookie := []
   re : List (Bytes × List Span) := []
 
@@ -147,6 +149,7 @@ def addRow (t : Tables) (row : String) : Option Tables :=
   | ["U", s] => do pure { t with url := t.url ++ [((← Hex.decode s), none)] }
   | ["U", s, pre, post, force, q] => do
     pure { t with url := t.url ++ [((← Hex.decode s), some ⟨(← Hex.decode pre), (← Hex.decode post), (← parseBool force), (← parseQ q)⟩)] }
+  | ["Q", rq, q] => do pure { t with pq := t.pq ++ [((← Hex.decode rq), (← parseQ q))] }
   | ["C", cs] => do pure { t with cookies := (← parseCookies cs) }
   | ["R", s, sp] => do pure { t with re := t.re ++ [((← Hex.decode s), (← parseSpans sp))] }
   | _ => none
@@ -228,6 +231,7 @@ def oraclesOf (t : Tables) : Oracles where
   parseIP := fun s => (lookup t.ip s).getD none
   ipStr := fun m => (lookup t.ipStr m).getD (str "?oracle-miss")
   parseURL := fun s => (lookup t.url s).getD none
+  parseQuery := fun s => (lookup t.pq s).getD [(str "?oracle-miss", [[]])]
   cookies := fun _ => t.cookies
   reSpans := fun s => (lookup t.re s).getD []
 
@@ -309,18 +313,10 @@ end CaddyModel.C20
 
 namespace CaddyModel.C20
 /-- counter-example lines replayed on the implementation on every run (see Witness.lean):
-    1 query filter, `/a?token=T#%zz` (url.Parse fails → passed through)      query_filter_full_fails
-    2 ip_mask, `fe80::1%eth0` (net.ParseIP rejects zones → passed through)   ipmask_full_fails
-    3 hash on an integer field (passed through)                             hash_full_fails
-    4 the first one end to end: `GET /h/x?token=T#%zz` through a provisioned server whose access log has a
-      filter encoder with `request>uri` → query delete token
-    5 the second one end to end: client `[fe80::1:2%eth0]:9`, `request>remote_ip` → ip_mask
-    6 cookie filter on a string field (passed through)                      hash_full_fails -/
+    1 hash on an integer field (passed through)                             hash_full_fails
+    2 cookie filter on a string field (passed through)                      hash_full_fails
+    (the former query / ip_mask / trailer witnesses are regression cases in corpus/C20/ now) -/
 def witnessLines : List String := [
-  "C20 flt query:d,746f6b656e,- 757269 s 2f613f746f6b656e3d303132333435363738396162636465663031323334353637383961626364656623257a7a U,2f613f746f6b656e3d303132333435363738396162636465663031323334353637383961626364656623257a7a",
-  "C20 flt ipmask:16:32 72656d6f74655f6970 s 666538303a3a312565746830 T,666538303a3a312565746830,666538303a3a312565746830;S,666538303a3a312565746830;P,666538303a3a312565746830",
   "C20 flt hash 737461747573 o 0 .",
-  "C20 site 1 0 d 0 ok 200 3139322e302e322e313a31323334 3f746f6b656e3d303132333435363738396162636465663031323334353637383961626364656623257a7a . . . . . . . 536572766572:4361646479",
-  "C20 site 1 0 d 0 ok 200 5b666538303a3a313a3225657468305d3a39 - . . . . . . . 536572766572:4361646479",
   "C20 flt cookie:d,736964,- 636f6f6b6965 s 7369643d3031323334353637383961626364656630313233343536373839616263646566 ."]
 end CaddyModel.C20
